@@ -91,9 +91,9 @@ class World:
         self.kinds = {}        # name -> Kind usable as a quantifier domain in specs
 
     # -- declaration helpers
-    def cls(self, name, fields=None, bases=(), module=None):
+    def cls(self, name, fields=None, bases=(), module=None, views=None):
         self.classes[name] = {'fields': dict(fields or {}), 'bases': list(bases),
-                              'module': module}
+                              'module': module, 'views': dict(views or {})}
         return name
 
     def exc(self, name, base='Exception'):
